@@ -12,5 +12,7 @@ CONSTANTS
   DEV_ForkSharesLanelets = FALSE
   ForkAll = FALSE
   DEV_DrawMovesVertices = FALSE
+  DEV_RectKeepsExportedPolygon = FALSE
+  ShapeHist = FALSE
   DEV_DiscHalfRadius = FALSE
 INVARIANT Emit
